@@ -52,6 +52,11 @@ def scriptpubkey(data: bytes) -> bytes:
             )
         elif len(witness_program) == 32:
             return p2wsh_script_pubkey(witness_program, witness_version=witness_version)
+        elif witness_version != 0:
+            # BIP350: witness v1+ programs may be 2 to 40 bytes; scriptPubKey is OP_n <program>
+            return p2wpkh_script_pubkey(
+                witness_program, witness_version=witness_version
+            )
         else:
             raise ValueError("bad witness program length")
     else:
